@@ -153,6 +153,17 @@ func (m *Machine) vocab(name string) (Intrinsic, bool) {
 			m.finishInline(it, rr, nil)
 			return false
 		}, true
+	case "vParam":
+		// vParam(name): a concrete scenario parameter chosen by the driver (one run per value)
+		return func(m *Machine, wl *worklist, it *Item, fn *ssa.Function, args []Value, rr int) bool {
+			nm := m.strArg(args[0], fn, it, 0)
+			v, ok := m.Params[nm]
+			if !ok {
+				m.fail("scenario parameter %q not supplied", nm)
+			}
+			m.finishInline(it, rr, m.IntC(v))
+			return false
+		}, true
 	case "vSincePositive":
 		return func(m *Machine, wl *worklist, it *Item, fn *ssa.Function, args []Value, rr int) bool {
 			m.SincePositive = true
